@@ -65,6 +65,29 @@ theorem witness_of_run {P : St → Bool} (s0 : St) (l : List Lab) (h : (runLabs 
     simp at h
     exact ⟨s, runLabs_reachable l s0 s Reachable.init hr, h⟩
 
+/-- run the first enabled thread (default choices) until `p` holds or the fuel is used up -/
+def runUntil (p : St → Bool) : Nat → St → St
+  | 0, s => s
+  | fuel + 1, s =>
+    if p s then s else
+    match s.tids.find? (fun t => enabled s t) with
+    | some t => runUntil p fuel (step s t {})
+    | none => s
+
+theorem runUntil_reachable {s0 : St} (p : St → Bool) : ∀ (fuel : Nat) (s : St), Reachable s0 s → Reachable s0 (runUntil p fuel s)
+  | 0, s, hr => hr
+  | fuel + 1, s, hr => by
+    unfold runUntil
+    by_cases hp : p s = true
+    · simp [hp]; exact hr
+    · simp [hp]
+      cases hf : s.tids.find? (fun t => enabled s t) with
+      | none => exact hr
+      | some t =>
+        have he : enabled s t = true := by
+          have := List.find?_some hf; simpa using this
+        exact runUntil_reachable p fuel _ (Reachable.step t {} hr he)
+
 /-! ### workloads and schedules of the witnesses -/
 
 def r0 : Access := { name := 0, ro := true }
